@@ -192,6 +192,10 @@ var forestShapes = []shapeDef{
 	{name: "escaped-key:slash", schemaOnly: true},
 	{name: "escaped-key:tilde", schemaOnly: true},
 	{name: "escaped-key:tilde-zero", schemaOnly: true},
+	{name: "deep-pointer:additionalProperties/properties/id", schemaOnly: true},
+	{name: "deep-pointer:properties/p/items/properties/x", schemaOnly: true},
+	{name: "deep-pointer:allOf/1/properties/y", schemaOnly: true},
+	{name: "deep-pointer:additionalProperties/properties/missing", schemaOnly: true},
 	{name: "non-components-fragment"},
 	{name: "pure-ref-loop"},
 	{name: "dangling-internal"},
@@ -432,6 +436,16 @@ func BuildForest(kind, shape string, pos Position, layout, spelling, entry strin
 		key := map[string]string{"escaped-key:tilde-one": "a~1b", "escaped-key:slash": "a/b", "escaped-key:tilde": "a~b", "escaped-key:tilde-zero": "a~0b"}[shape]
 		tok := strings.ReplaceAll(strings.ReplaceAll(key, "~", "~0"), "/", "~1")
 		planted = frag(sec, "Holder") + "/properties/" + tok
+	case "deep-pointer:additionalProperties/properties/id", "deep-pointer:properties/p/items/properties/x", "deep-pointer:allOf/1/properties/y", "deep-pointer:additionalProperties/properties/missing":
+		// pointers of three and more segments below a component, through every way a schema holds another one
+		addComponent(root, sec, "Holder", map[string]any{"type": "object", "description": "HOLDER",
+			"additionalProperties": map[string]any{"type": "object", "description": "HOLDER-AP", "properties": map[string]any{"id": map[string]any{"type": "string", "description": "TARGET additionalProperties/properties/id"}}},
+			"properties": map[string]any{"p": map[string]any{"type": "array", "description": "HOLDER-P", "items": map[string]any{"type": "object", "properties": map[string]any{"x": map[string]any{"type": "integer", "description": "TARGET properties/p/items/properties/x"}}}}},
+			"allOf": []any{map[string]any{"type": "object"}, map[string]any{"properties": map[string]any{"y": map[string]any{"type": "boolean", "description": "TARGET allOf/1/properties/y"}}}}})
+		planted = frag(sec, "Holder") + "/" + strings.TrimPrefix(shape, "deep-pointer:")
+		if strings.HasSuffix(shape, "/missing") {
+			f.Expect = "dangling"
+		}
 	case "non-components-fragment":
 		switch kind {
 		case "schema":
